@@ -2,11 +2,14 @@
 
 package main
 
-// C13: the real locker (refreshLocks + monitorLockRefresh goroutines, forced refresh under Freeze)
-// with millisecond intervals on an in-memory backend behind a wrapper that follows a generated
-// fault script: windows in which lock saves fail or are slow, removal of the lock file by somebody
-// else, the time of Unlock. The wrapper records every lock-file operation, Freeze/Unfreeze and the
-// moment the context is cancelled, with timestamps; all waits are bounded.
+// C13: the real repository.LockRepo (newLock, then the refreshLocks + monitorLockRefresh goroutines,
+// forced refresh under Freeze) with the REAL constants (5 min / 22.5 min / 30 min / 1 s poll) on an
+// in-memory backend behind a wrapper that follows a generated fault script: windows in which lock
+// saves fail or are slow, removal of the lock file by somebody else, the time of Unlock. Every case
+// runs inside a testing/synctest bubble, i.e. in virtual time: timers fire exactly, an hour of lock
+// keeping costs milliseconds, and scheduling noise of the machine cannot disturb the timing
+// observations. The wrapper records every lock-file operation, Freeze/Unfreeze and the moment the
+// context is cancelled, with (virtual) timestamps.
 
 import (
 	"context"
@@ -14,6 +17,8 @@ import (
 	"io"
 	"sort"
 	"sync"
+	"testing"
+	"testing/synctest"
 	"time"
 
 	"github.com/restic/restic/internal/backend"
@@ -129,67 +134,100 @@ func (b *c13Backend) Unfreeze() {
 	b.rec("unfreeze", I64(b.us()), B(cancelled))
 }
 
-type c13Result struct {
-	lines [][]string
+// A *testing.T (needed by testing/synctest) is obtained through testing.Main, which works in a
+// non-test binary: the whole stream runs as one "test"; testing.Main exits the process afterwards,
+// so the stream flushes its output itself.
+func streamC13(h *H) {
+	testing.Main(func(pat, str string) (bool, error) { return true, nil },
+		[]testing.InternalTest{{Name: "c13", F: func(t *testing.T) {
+			c13Stream(h, t)
+			h.End()
+			h.W.Flush()
+		}}}, nil, nil)
 }
 
-func c13RunCase(sc c13Script, refreshInterval, refreshability time.Duration) [][]string {
-	base := mem.New()
-	repository.TestRepositoryWithBackend(TB, base, 0, repository.Options{})
+// c13InBubble runs f inside a testing/synctest bubble (virtual clock).
+func c13InBubble(t *testing.T, name string, f func()) bool {
+	return t.Run(name, func(t *testing.T) {
+		synctest.Test(t, func(t *testing.T) { f() })
+	})
+}
+
+// c13RunCase runs one scripted holder. ri == 0: the real repository.LockRepo with the constants of the
+// source; otherwise a locker with the given intervals (shim, as the repository's tests do).
+func c13RunCase(base backend.Backend, sc c13Script, ri, rt time.Duration) [][]string {
 	be := &c13Backend{Backend: base, sc: sc}
 	repo := repository.TestOpenBackend(TB, be)
 	be.t0 = time.Now()
-	be.armed = true
 	var logs []string
 	var logMu sync.Mutex
-	unlock, wctx, err := repository.VerifC13Lock(context.Background(), repo, false, refreshInterval, refreshability, func(format string, args ...any) {
+	logger := func(format string, args ...any) {
 		logMu.Lock()
 		logs = append(logs, fmt.Sprintf(format, args...))
 		logMu.Unlock()
-	})
+	}
+	var unlock func()
+	var wctx context.Context
+	var err error
+	if ri == 0 {
+		unlock, wctx, err = repository.LockRepo(context.Background(), repo, false, 0, func(string) {}, logger)
+	} else {
+		unlock, wctx, err = repository.VerifC13Lock(context.Background(), repo, false, ri, rt, logger)
+	}
 	if err != nil {
 		be.rec("lockerr", HexS(err.Error()))
 		return be.lines
 	}
+	// script times count from the moment the lock is held
 	be.mu.Lock()
 	be.ctx = wctx
+	be.t0 = time.Now()
+	be.armed = true
 	be.mu.Unlock()
+	// the lock file written by newLock (its Time is "now": acquisition takes no virtual time)
+	_ = base.List(context.Background(), backend.LockFile, func(fi backend.FileInfo) error {
+		be.rec("save", "0", "0", "1", fi.Name[:8])
+		return nil
+	})
 	be.rec("acq", I64(be.us()))
-	watchDone := make(chan struct{})
+	stop := make(chan struct{})
+	var wg sync.WaitGroup
+	wg.Add(1)
 	go func() {
-		defer close(watchDone)
+		defer wg.Done()
 		select {
 		case <-wctx.Done():
 			be.rec("cancel", I64(be.us()))
-		case <-time.After(sc.unlockAt + 10*time.Second):
-			be.rec("cancel-timeout")
+		case <-stop:
 		}
 	}()
 	if sc.removeAt > 0 {
+		wg.Add(1)
 		go func() {
-			time.Sleep(time.Until(be.t0.Add(sc.removeAt)))
+			defer wg.Done()
+			select {
+			case <-time.After(sc.removeAt):
+			case <-stop:
+				return
+			}
 			var names []string
 			_ = base.List(context.Background(), backend.LockFile, func(fi backend.FileInfo) error {
 				names = append(names, fi.Name)
 				return nil
 			})
+			sort.Strings(names)
 			for _, n := range names {
 				_ = base.Remove(context.Background(), backend.Handle{Type: backend.LockFile, Name: n})
 				be.rec("removed-by-other", I64(be.us()), n[:8])
 			}
 		}()
 	}
-	time.Sleep(time.Until(be.t0.Add(sc.unlockAt)))
+	time.Sleep(sc.unlockAt)
 	be.rec("unlock-call", I64(be.us()), B(wctx.Err() != nil))
-	done := make(chan struct{})
-	go func() { unlock(); close(done) }()
-	select {
-	case <-done:
-		be.rec("unlock-ret", I64(be.us()), B(wctx.Err() != nil))
-	case <-time.After(15 * time.Second):
-		be.rec("unlock-hang")
-	}
-	<-watchDone
+	unlock()
+	be.rec("unlock-ret", I64(be.us()), B(wctx.Err() != nil))
+	close(stop)
+	wg.Wait()
 	n := 0
 	_ = base.List(context.Background(), backend.LockFile, func(backend.FileInfo) error { n++; return nil })
 	be.rec("files-left", Itoa(n))
@@ -203,91 +241,106 @@ func c13RunCase(sc c13Script, refreshInterval, refreshability time.Duration) [][
 	return be.lines
 }
 
-func streamC13(h *H) {
-	const ms = time.Millisecond
-	ncases := h.N(64, 3000)
-	par := 4
-	type job struct {
-		sc     c13Script
-		kind   string
-		ri, rt time.Duration
-		out    [][]string
-	}
-	for done := 0; done < ncases; done += par {
-		var jobs []*job
-		for k := 0; k < par && done+k < ncases; k++ {
-			ri := time.Duration(30+10*h.Intn(3)) * ms // refresh interval 30..50 ms
-			rt := ri * 5                                // refreshability timeout 150..250 ms
-			j := &job{ri: ri, rt: rt}
-			sc := c13Script{}
-			rnd := func(lo, hi time.Duration) time.Duration { return lo + time.Duration(h.Intn(int((hi-lo)/ms)+1))*ms }
-			switch h.Intn(7) {
-			case 0:
-				j.kind = "healthy"
-			case 1:
-				j.kind = "outage-permanent"
-				sc.failFrom = rnd(0, 2*rt)
-				sc.failTo = time.Hour
-			case 2:
-				j.kind = "outage-temporary"
-				sc.failFrom = rnd(0, rt)
-				sc.failTo = sc.failFrom + rnd(ri, 2*rt)
-			case 3:
-				j.kind = "slow-saves"
-				sc.slowFrom = rnd(0, rt)
-				sc.slowTo = sc.slowFrom + rnd(ri, 2*rt)
-				sc.slow = rnd(ri/2, rt+ri)
-			case 4:
-				j.kind = "outage-then-slow"
-				sc.failFrom = rnd(0, ri)
-				sc.failTo = sc.failFrom + rnd(2*ri, rt-ri)
-				sc.slowFrom = sc.failTo
-				sc.slowTo = sc.slowFrom + rnd(ri, rt)
-				sc.slow = rnd(ri, rt)
-			case 5:
-				j.kind = "removed-and-outage"
-				sc.removeAt = rnd(ri, rt)
-				sc.failFrom = rnd(0, sc.removeAt)
-				sc.failTo = time.Hour
-			case 6:
-				j.kind = "removed-only"
-				sc.removeAt = rnd(ri, 2*rt)
-				if h.Intn(2) == 0 {
-					sc.rmFailFrom = rnd(0, rt)
-					sc.rmFailTo = sc.rmFailFrom + rnd(ri, rt)
-				}
-			}
-			// long enough for a holder that lost its lock to be cancelled, and for one that wrongly keeps
-			// running to be seen with an over-age lock
-			sc.unlockAt = 3*rt + 3*sc.slow + rnd(0, rt)
-			if h.Intn(8) == 0 {
-				sc.unlockAt = rnd(ri, rt) // early unlock
-			}
-			j.sc = sc
-			jobs = append(jobs, j)
+func c13Stream(h *H, t *testing.T) {
+	ncases := h.N(120, 6000)
+	for ci := 0; ci < ncases; ci++ {
+		var ri, rt time.Duration // 0 = the real LockRepo
+		unit := time.Second
+		switch h.Intn(10) {
+		case 0:
+			ri, unit = 40*time.Millisecond, time.Millisecond
+		case 1:
+			ri, unit = 2*time.Second, 10*time.Millisecond
+		case 2:
+			ri, unit = time.Minute, time.Second
 		}
-		var wg sync.WaitGroup
-		for _, j := range jobs {
-			wg.Add(1)
-			go func(j *job) {
-				defer wg.Done()
-				j.out = c13RunCase(j.sc, j.ri, j.rt)
-			}(j)
+		eri, ert := ri, ri*5
+		rt = ert
+		if ri == 0 {
+			// the intervals the real LockRepo uses, read from the compiled source
+			f := repository.VerifFacts()
+			eri, ert = time.Duration(f["lock_refreshInterval_ns"]), time.Duration(f["lock_refreshabilityTimeout_ns"])
 		}
-		wg.Wait()
-		for _, j := range jobs {
-			h.Case("script")
-			d := func(x time.Duration) string { return I64(x.Microseconds()) }
-			h.Rec("params", d(j.ri), d(j.rt), j.kind)
-			failTo, slowTo, rmTo := j.sc.failTo, j.sc.slowTo, j.sc.rmFailTo
-			if failTo > time.Minute {
-				failTo = time.Minute
+		sc := c13Script{}
+		rnd := func(lo, hi time.Duration) time.Duration {
+			if hi <= lo {
+				return lo
 			}
-			h.Rec("script", d(j.sc.failFrom), d(failTo), d(j.sc.slowFrom), d(slowTo), d(j.sc.slow), d(j.sc.rmFailFrom), d(rmTo), d(j.sc.removeAt), d(j.sc.unlockAt))
-			for _, l := range j.out {
-				h.Rec(l[0], l[1:]...)
-			}
-			h.End()
+			return lo + time.Duration(h.Intn(int((hi-lo)/unit)+1))*unit
 		}
+		kind := ""
+		switch h.Intn(8) {
+		case 0:
+			kind = "healthy"
+		case 1:
+			kind = "outage-permanent"
+			sc.failFrom = rnd(0, 2*ert)
+			sc.failTo = 1000 * time.Hour
+		case 2:
+			kind = "outage-temporary"
+			sc.failFrom = rnd(0, ert)
+			sc.failTo = sc.failFrom + rnd(eri, 2*ert)
+		case 3:
+			kind = "slow-saves"
+			sc.slowFrom = rnd(0, ert)
+			sc.slowTo = sc.slowFrom + rnd(eri, 2*ert)
+			sc.slow = rnd(eri/10, eri+eri/2)
+		case 4:
+			kind = "outage-then-slow"
+			sc.failFrom = rnd(0, eri)
+			sc.failTo = sc.failFrom + rnd(2*eri, ert-eri)
+			sc.slowFrom = sc.failTo
+			sc.slowTo = sc.slowFrom + rnd(eri, ert)
+			sc.slow = rnd(eri/10, eri+eri/2)
+		case 5:
+			kind = "removed-and-outage"
+			sc.removeAt = rnd(eri, ert)
+			sc.failFrom = rnd(0, sc.removeAt)
+			sc.failTo = 1000 * time.Hour
+		case 6:
+			kind = "removed-only"
+			sc.removeAt = rnd(eri, 2*ert)
+			if h.Intn(2) == 0 {
+				sc.rmFailFrom = rnd(0, ert)
+				sc.rmFailTo = sc.rmFailFrom + rnd(eri, ert)
+			}
+		case 7:
+			kind = "short-outages-and-slow"
+			sc.failFrom = rnd(0, ert)
+			sc.failTo = sc.failFrom + rnd(eri, 3*eri)
+			sc.slowFrom = rnd(0, 2*ert)
+			sc.slowTo = sc.slowFrom + rnd(eri, 2*ert)
+			sc.slow = rnd(eri/10, eri)
+		}
+		// long enough for a holder that lost its lock to be cancelled, and for one that wrongly keeps
+		// running to be seen with an over-age lock
+		sc.unlockAt = 3*ert + 3*sc.slow + rnd(0, ert)
+		if h.Intn(8) == 0 {
+			sc.unlockAt = rnd(eri/2, ert) // early unlock
+		}
+		base := mem.New()
+		repository.TestRepositoryWithBackend(TB, base, 0, repository.Options{})
+		var out [][]string
+		okRun := false
+		panicked, msg := Protect(func() {
+			okRun = c13InBubble(t, Itoa(ci), func() { out = c13RunCase(base, sc, ri, rt) })
+		})
+		h.Case("script")
+		d := func(x time.Duration) string { return I64(x.Microseconds()) }
+		h.Rec("params", d(eri), d(ert), kind, B(ri == 0))
+		failTo := sc.failTo
+		if failTo > 100*time.Hour {
+			failTo = 100 * time.Hour
+		}
+		h.Rec("script", d(sc.failFrom), d(failTo), d(sc.slowFrom), d(sc.slowTo), d(sc.slow), d(sc.rmFailFrom), d(sc.rmFailTo), d(sc.removeAt), d(sc.unlockAt))
+		for _, l := range out {
+			h.Rec(l[0], l[1:]...)
+		}
+		if panicked {
+			h.Rec("bubble", "panic", HexS(msg))
+		} else if !okRun {
+			h.Rec("bubble", "failed")
+		}
+		h.End()
 	}
 }
